@@ -28,6 +28,7 @@ func ruleC15(prog *Program, rep *Report) {
 	ruleUnsafeKind(prog, rep)
 	ruleEmbeddedNil(prog, rep)
 	ruleTableShape(prog, rep, "oj", "sen", "alt")
+	ruleDispatchArgs(prog, rep, "oj", "sen", "alt")
 }
 
 // fieldLoops finds `for` loops whose init or condition calls NumField().
